@@ -181,6 +181,15 @@ func registerSym() {
 		}
 		return mkBool(smt.Or(smt.And(smt.FIsNaN(a), smt.FIsNaN(b)), smt.FEq(a, b)))
 	})
+	regSym("EqR", func(fr *frame, args []value) value {
+		// equal up to rounding: equality over the reals (real mode only)
+		a, _ := floatTerm(args[0])
+		b, _ := floatTerm(args[1])
+		if a == b {
+			return true
+		}
+		return mkBool(smt.Eq(a, b))
+	})
 	regSym("IsStale", func(fr *frame, args []value) value {
 		switch x := args[0].(type) {
 		case float64:
